@@ -17,8 +17,9 @@ class RequestStreamRequester(StreamHandler, DefaultPublisherSubscription, Reques
         pass
 
     def subscribe(self, subscriber: Subscriber):
-        super().subscribe(subscriber)
+        # the request frame goes first: on_subscribe() may already call request(n) or cancel()
         self._send_stream_request(self.payload)
+        super().subscribe(subscriber)
 
     def cancel(self):
         self.send_cancel()
